@@ -27,13 +27,43 @@ def run(ctx):
         "never sliced (in every quick run): peers 127.0.0.1 and ::1 x X-Forwarded-For {absent, once, twice, last element = peer's text with something in front, = peer's text with something behind, = the peer itself} x other managed headers {absent, all forged} x {plain, TLS} x {http, websocket, Websocket} x configured names {canonical, X-TLS / X-Client-IP}; an address is accepted in any textual form of the same IP (a bracketed literal is not an address), Forwarded for= also in RFC 7239 quoting; when the client's list already ends with the peer, listing it once more is not judged",
         "forged styles now include a header sent twice where one copy says the truth and the other is forged, in both orders, for every managed header (sliced universe and the never-sliced peer universe): judged by the header's own clause - configured client-IP header exactly [peer], TLS header exactly the configured value on TLS / absent on plain, X-Forwarded-For = client's elements + peer, the others passed through as sent (Forwarded: first value, possibly extended)",
         "never sliced: 128 connection histories - 2 or 3 requests sent one after the other over ONE keep-alive connection to one of fabio's own listeners (proxy.ListenAndServeHTTP, plain and TLS), asking for hosts a./b. with and without a port in every position: X-Forwarded-Port and X-Forwarded-Host must follow from each request alone (invariant ConnectionIndependent); the proxy is put together as in main with every metrics handler set",
+        "never sliced (round 4): client X-Forwarded-For lines with empty / blank values (one, several, mixed with an address): the peer is still the last element (empty elements are not judged); upstream failures - connection refused, hang-up before any answer, no answer within proxy.responseheadertimeout (300 ms) - x 4 configurations x {plain, TLS}: fabio's own error answer carries Strict-Transport-Security on TLS when configured and never on plain; second binding through package main: plain listeners brought up by main.startServers itself",
         "configuration: client-IP header X-Client-Ip, TLS header X-Tls: true, HSTS max-age with includeSubdomains, each on or off (4 combinations)",
         "scope: when the client supplies exactly one of X-Forwarded-Proto / Forwarded only its pass-through is judged (fabio trusts the proxy in front; the statement is silent); a supplied Forwarded may be extended (by=, httpproto=) and, if sent twice, only the first value is judged; X-Forwarded-Port = port of the requested Host, else the default of the actual connection; Forwarded proto ws/wss counts as http/https; HSTS on the 101 answer of a TLS websocket handshake is not judged; a client-IP header named X-Forwarded-For or X-Real-Ip is not configured",
     ]
     base.run_prop(ctx, "C08", ctx.pick(8, 1),
                   "one case per finished pipeline run TLC enumerated (quick: the slice selected by the seed; thorough: the full product); non-trivial = at least one forged managed header, a host option or a websocket request",
-                  _pred, _corrupt, "xrealip")
+                  _pred, _corrupt, "xrealip", after=_main)
+
+
+def _main(ctx, cases):
+    """Second binding: the never-sliced peer and connection cases through package main's own start-up code - plain
+    listeners are brought up by main.startServers (listener configuration, metrics handlers, main.newHTTPProxy,
+    proxy.ListenAndServeHTTP), TLS listeners get main.newHTTPProxy behind proxy.ListenAndServeHTTP."""
+    import os
+    sub = os.path.join(ctx.tmp, "c08.main.cases")
+    n = base.filter_cases(cases, sub, lambda c: c["c"]["sub"] in ("peer", "conn") and c["c"]["peer"] == "v4")
+    if n == 0:
+        ctx.inconclusive("no cases for the package main wiring")
+        return
+    r = base.run_main_harness(ctx, sub, "C08 replay through package main", prop="C08")
+    if r is None:
+        return
+    s = r.summary
+    ctx.log("package main wiring (main.startServers, main.newHTTPProxy): %d cases replayed, %d failed, %.0fs" % (s["cases"], s["fails"], r.wall))
+    ctx.cover("main-wiring", traces_validated_against_impl=s["ran"], evaluations=s["ran"])
+    ctx.take_failures(r, "c08-main")
 
 
 def replay(ctx, rp):
+    if rp.get("replay", {}).get("sub") == "c08-main" and rp["replay"].get("case") is not None:
+        import os
+        from lib import vf
+        one = os.path.join(ctx.tmp, "c08.replay")
+        vf.write_ndjson(one, [rp["replay"]["case"]])
+        r = base.run_main_harness(ctx, one, "C08 replay (package main wiring)", timeout=300, prop="C08")
+        if r is not None:
+            ctx.cover(evaluations=1)
+            ctx.take_failures(r, "c08-main")
+        return
     base.replay_prop(ctx, "C08", rp)
